@@ -9,15 +9,38 @@ def fams(tier):
     return proxyfam.flight_families() + proxyfam.policy_families() + proxyfam.reval_families() + proxyfam.retry_families() + proxyfam.refusal_families()
 
 
+SLOW_RULE = (" Slow readers: spec/SlowReaders.tla enumerates scenarios (K in {1,9,12} (thorough: {1,3,8,9,12,16}) clients that stop reading after the "
+             "response head of a 96 MiB resource x cacheable / no-store x sized / streamed); a late-comer for the same resource, a request for another "
+             "resource of the same origin and, afterwards, the slow clients themselves must all receive complete answers (the late-comers within 10 s).")
+
+
+def slow_readers(tier, seed):
+    import vlib, relayfam
+    out = {"violations": [], "notes": [], "coverage": {"slow_reader_scenarios": []}, "traces": 0}
+    for backend, ks in ((("memory", {1, 9, 12}),) if tier == "quick" else (("memory", {1, 3, 8, 9, 12, 16}), ("file", {1, 9, 12}))):
+        r = relayfam.slow_run(ks, backend)
+        out["traces"] += r["scenarios"]
+        out["coverage"]["slow_reader_scenarios"].append({k: r[k] for k in ("backend", "scenarios", "nbad")})
+        if r["nbad"]:
+            again = relayfam.slow_run(ks, backend)  # reproduce before reporting
+            if again["nbad"]:
+                print("slow readers: %s" % str(again["bad"])[:600])
+                out["violations"].append(vlib.save_replay("C05", "slowreaders-%s-seed%d.json" % (backend, seed), {"kind": "relaydrv-slow", "backend": backend, "ks": sorted(ks), "bad": again["bad"]}))
+            else:
+                out["notes"].append("slow-reader mismatch did not reproduce; not counted")
+    return out
+
+
 def run(tier, seed):
-    extra = []
-    try:
-        import props.C05x as x
-        extra = x.EXTRA
-    except ImportError:
-        pass
-    return run_proxy_property("C05", tier, seed, fams, 40, 400, RULE, ASSUME, extra_runs=extra)
+    return run_proxy_property("C05", tier, seed, fams, 40, 400, RULE + SLOW_RULE, ASSUME, extra_runs=[slow_readers])
 
 
 def replay(path):
+    import json
+    art = json.load(open(path))
+    if art.get("kind") == "relaydrv-slow":
+        import relayfam
+        r = relayfam.slow_run(set(art["ks"]), art.get("backend", "memory"))
+        print(r["bad"])
+        return [path] if r["nbad"] else []
     return replay_file("C05", path)
